@@ -323,6 +323,33 @@ def main():
             out['merge_polys'] = [decode_poly(dat[indptr[i]:indptr[i + 1]])[0]
                                   for i in range(len(indptr) - 1)]
             out['merge_elem_conv'] = [int(e) for e in ec]
+            # edge removals on real merged cells (geometry = the input node table):
+            # correspondence with ModelEdge.remove_one_edge and instances of
+            # C20_remove_one_edge_volume
+            ge = job.get('geo_edges')
+            if ge:
+                import random as _random
+                rr = _random.Random(ge['seed'])
+                cand = [q for q, c in enumerate(out['merge_polys']) if len(c) >= 5]
+                rr.shuffle(cand)
+                geo = []
+                for q in cand[:ge['cells']]:
+                    cur = [list(f) for f in out['merge_polys'][q]]
+                    for _ in range(ge['steps']):
+                        f = rr.choice(cur)
+                        j = rr.randrange(len(f))
+                        a, b = f[j - 1], f[j]
+                        if rr.random() < 0.5:
+                            a, b = b, a
+                        with contextlib.redirect_stdout(buf):
+                            ok_e, newp = mcmod.remove_one_edge_from_polyhedron(
+                                np.array(encode_poly(cur), np.int32), a, b)
+                        newf = decode_poly(newp)[0]
+                        geo.append({'cell': q, 'a': int(a), 'b': int(b), 'ok': bool(ok_e),
+                                    'before': cur, 'after': newf})
+                        if ok_e:
+                            cur = newf
+                out['geo_edges'] = geo
             with contextlib.redirect_stdout(buf):
                 if job.get('interleave') and other_mc is None:
                     # a second live compressor on another mesh (class-level state would show)
